@@ -172,6 +172,8 @@ func (c *Conn) AsyncRead() {
 				if n > 0 {
 					*pbuf = (*pbuf)[:n]
 					g.onDataPtr(rc, pbuf)
+					// restore the full length for the next read.
+					*pbuf = (*pbuf)[:cap(*pbuf)]
 				}
 				if errors.Is(err, syscall.EINTR) {
 					continue
@@ -212,6 +214,8 @@ func (c *Conn) AsyncRead() {
 				if n > 0 {
 					*pBuf = (*pBuf)[:n]
 					g.onDataPtr(rc, pBuf)
+					// restore the full length for the next read.
+					*pBuf = (*pBuf)[:cap(*pBuf)]
 				}
 				if errors.Is(err, syscall.EINTR) {
 					continue
